@@ -18,7 +18,11 @@ pub fn cleanup() {
     let _ = std::fs::remove_dir_all(std::env::temp_dir().join(format!("xmc-repl-{}", std::process::id())));
 }
 
-pub fn run_repl(lines: &[String]) -> Result<String, String> {
+/// Ok(stdout) or Err(reason); a REPL that does not finish within `TIMEOUT` is killed ("hang")
+const TIMEOUT: std::time::Duration = std::time::Duration::from_secs(20);
+
+pub fn run_repl_full(lines: &[String]) -> Result<String, String> {
+    use std::io::Read;
     let exe = std::env::current_exe().map_err(|e| e.to_string())?;
     let dir = scratch_dir();
     let mut child = Command::new(exe)
@@ -38,40 +42,43 @@ pub fn run_repl(lines: &[String]) -> Result<String, String> {
         }
         sin.write_all(text.as_bytes()).map_err(|e| e.to_string())?;
     }
-    let out = child.wait_with_output().map_err(|e| e.to_string())?;
-    if !out.status.success() && out.status.code().is_none() {
-        return Err(format!("REPL process died: {:?}", out.status));
+    let mut out = child.stdout.take().unwrap();
+    let reader = std::thread::spawn(move || {
+        let mut buf = Vec::new();
+        let _ = out.read_to_end(&mut buf);
+        buf
+    });
+    let start = std::time::Instant::now();
+    loop {
+        match child.try_wait() {
+            Ok(Some(st)) => {
+                let buf = reader.join().unwrap_or_default();
+                if st.code().is_none() {
+                    return Err(format!("REPL process died: {:?}", st));
+                }
+                return Ok(String::from_utf8_lossy(&buf).to_string());
+            }
+            Ok(None) => {
+                if start.elapsed() > TIMEOUT {
+                    let _ = child.kill();
+                    let _ = child.wait();
+                    let _ = reader.join();
+                    return Err("hang".into());
+                }
+                std::thread::sleep(std::time::Duration::from_millis(2));
+            }
+            Err(e) => return Err(e.to_string()),
+        }
     }
-    let s = String::from_utf8_lossy(&out.stdout).to_string();
+}
+
+/// what the REPL printed on stdout after the last marker line
+pub fn run_repl(lines: &[String]) -> Result<String, String> {
+    let s = run_repl_full(lines)?;
     match s.rfind(MARK) {
         Some(i) => Ok(s[i + MARK.len()..].to_string()),
         None => Err(format!("marker not printed; stdout: {}", s.chars().take(300).collect::<String>())),
     }
-}
-
-/// whole stdout of the REPL process
-pub fn run_repl_full(lines: &[String]) -> Result<String, String> {
-    let exe = std::env::current_exe().map_err(|e| e.to_string())?;
-    let dir = scratch_dir();
-    let mut child = Command::new(exe)
-        .env("XMC_REPL_SHIM", "1")
-        .current_dir(dir)
-        .stdin(Stdio::piped())
-        .stdout(Stdio::piped())
-        .stderr(Stdio::null())
-        .spawn()
-        .map_err(|e| e.to_string())?;
-    {
-        let mut sin = child.stdin.take().unwrap();
-        let mut text = String::new();
-        for l in lines {
-            text.push_str(l);
-            text.push('\n');
-        }
-        sin.write_all(text.as_bytes()).map_err(|e| e.to_string())?;
-    }
-    let out = child.wait_with_output().map_err(|e| e.to_string())?;
-    Ok(String::from_utf8_lossy(&out.stdout).to_string())
 }
 
 /// a probe line: prints the marker, then the probe runs; the REPL lists the stack afterwards
